@@ -5,7 +5,7 @@ import os, re, subprocess
 V = os.path.dirname(os.path.dirname(os.path.abspath(__file__)))
 p = V + "/DESIGN.md"
 s = open(p).read()
-for n in (2, 3, 4, 5, 7):
+for n in (2, 3, 4, 5, 7, 8):
     j = f"{V}/seeded/round{n}.json"
     b, e = f"<!-- round{n}-table-begin -->", f"<!-- round{n}-table-end -->"
     if not os.path.exists(j) or b not in s:
